@@ -70,10 +70,17 @@ def populate_model(m, variant=0):
     outf.equation = stock * stock / cap
     stock.initial_value = 2.0 + variant
     stock.equation = flow - outf
+    # a converter chain that feeds no stock, read with a delay (requested only by the checks that name EQS_X)
+    fee, billed = m.converter("fee"), m.converter("billed")
+    tariff = m.constant("tariff")
+    tariff.equation = 1.0
+    fee.equation = tariff * 100.0 + lk
+    billed.equation = sd.delay(m, fee, 2.0 * m.dt, 0.0)
     return m
 
 
 EQS = ["stock", "flow", "rate", "lk"]
+EQS_X = EQS + ["fee", "billed"]
 MG, SC = "smSrv", "base"
 
 
